@@ -12,6 +12,14 @@ CLAIMS = {
    text="Session.tla is model-checked by TLC (DeliverOnlyCurrent, SkipKeepsWaiting, UndecodableEndsCall, LaterMatchDelivered) over all interleavings of sends, receive-loop iterations and injections of the curated fault alphabet; every completed behaviour within the bound is replayed on the real raw sockets of each version/security level and the recorded trace (all octets both ways) is judged by TraceSession.tla, which decodes the datagrams itself and computes each call's required outcome from the ids actually on the wire.",
    note="Bounded: <=2-3 requests, <=2 queued datagrams, <=2-4 injections per behaviour; loopback UDP assumed order-preserving; HMAC/ciphers interpreted by reference implementations.",
    ref="DESIGN.md 5 C04", technique="TLC model checking of Session.tla + exhaustive behaviour replay + TLC trace validation (TraceSession.tla)"),
+ "C07": dict(
+   text="Replies.tla (TLC) enumerates the complete table of replies with 0..3 varbinds over {int, octets, NULL, noSuchObject, noSuchInstance, endOfMibView} x two names (duplicates included) x PDU type {Response, Report, echoed request} (5655 entries), evaluates the required get/get_many mapping over the whole table, and every entry is replayed through get and get_many on real v1/v2c/v3 sockets; TraceSession.tla decodes the reply octets and judges value / None / exception class / dict contents.",
+   note="Exception classes are compared by identity with the classes the library exports (SnmpError family). Duplicate names in get_many: either occurrence's value is accepted.",
+   ref="DESIGN.md 5 C07", technique="TLC-enumerated reply table + TLC trace validation (Wire!GetResult / GetManyResult)"),
+ "C08": dict(
+   text="OidTexts.tla (TLC) enumerates 18432 strings from a token grammar (1..3 arcs over 26 boundary/bad tokens, one bad token per position, dot placement, 2..129 arcs), checks print(parse(s)) = s and canonicity at design level, and classifies each string; every string goes through get_many() and GetIter() on a real socket, and TraceSession.tla requires refusal <=> nothing sent, sent OID octets = OidFromText(s), and the echoed OID rendered back to identical text.",
+   note="Strings on which the statement is silent (leading '+', leading zeros, second arc >= 40 under first arc 2) may be refused or sent as exactly the denoted OID.",
+   ref="DESIGN.md 5 C08", technique="TLC grammar enumeration with design-level round-trip law + TLC trace validation"),
  "C19": dict(
    text="TLC checks delay<=D, slot invariants and the k-window bound on Policer.tla for all phase offsets x gaps (several D); Apalache discharges the inductive invariant for symbolic D and unbounded times; the real RPSPolicer is driven through every transition of the exported graph (get_timeout, wait_sync, wait under a virtual clock) and through random call sequences, and every observed run is judged by TracePolicer.tla at property level.",
    note="Assumes sequential calls on a monotonic clock (the property's hypothesis) and that sleep() sleeps at least what is asked. Window bound for all k follows arithmetically from the inductive invariant.",
